@@ -360,6 +360,12 @@ class Runner:
                 del ent.states[victim.Handle]
                 with mdib.context_state_transaction() as mgr:
                     mgr.write_entity(ent, [victim.Handle])
+            elif which == 'ctx_remove_via_descriptor_tx':
+                # the context entity, minus one state, is written with a descriptor transaction
+                ent = mdib.entities.by_handle(victim.DescriptorHandle)
+                del ent.states[victim.Handle]
+                with mdib.descriptor_transaction() as mgr:
+                    mgr.write_entity(ent)
             elif which == 'dup_ctx_handle_add_state':
                 descr = mdib.descriptions.handle.get_one(victim.DescriptorHandle)
                 new_state = mdib.data_model.mk_state_container(descr)
@@ -492,7 +498,7 @@ def st_history(inv, max_steps):
                                                       'add_existing', 'state_without_descr', 'ctx_unknown_modified',
                                                       'write_entities_partial', 'write_entities_partial']),
                   st.booleans(), st.integers(0, 20), st.booleans()).map(list),
-        st.tuples(st.just('commit_fail'), st.sampled_from(['ctx_remove_via_entity', 'dup_ctx_handle_add_state']),
+        st.tuples(st.just('commit_fail'), st.sampled_from(['ctx_remove_via_entity', 'dup_ctx_handle_add_state', 'ctx_remove_via_descriptor_tx']),
                   st.integers(0, 10)).map(list),
         st.tuples(st.just('entity_mutate'), st.integers(0, 200), st.integers(0, 40), st.integers(0, 5)).map(list),
         st.tuples(st.just('published_mutate'), st.integers(0, 50), st.integers(0, 40), st.integers(0, 5)).map(list),
